@@ -52,16 +52,6 @@ IABS = (0x0050c2, 0x40d855)          # IEEE IAB base OUIs
 MAXV = {48: (1 << 48) - 1, 64: (1 << 64) - 1}
 
 
-def known(c):
-    """C08-F16 (open): is_iab() / iab of an EUI-64 receiver look at bits 24.. / 12.. of the value
-    (the EUI-48 positions) instead of the EUI-64 OUI position: exactly the EUI-64 receivers for which
-    the two readings differ"""
-    a = c.args
-    if a and a[0] == 'iab' and a[1] == 64 and ((a[2] >> 24) in IABS or (a[2] >> 40) in IABS):
-        return 'C08-F16'
-    return None
-
-
 def dinfo(ver, d):
     if d.startswith('D,'):
         f = d.split(',')
@@ -353,18 +343,20 @@ def generate(rng, tier):
         e = rng.choice((v, v >> 12, v & ~0xfff, (v >> 12) + 1))
         strict = rng.random() < 0.5
         cases.append(Case('iab_split %d %s' % (e, tf(strict)), 'iab_split', ('iab_split', e, strict)))
-    # IAB: EUI-64 receivers (a handful inside the class of the open finding C08-F16, the rest outside it)
-    for p in IABS:
-        cases.append(Case('eui_iab 64 %d' % ((p << 40) | rng.getrandbits(40)), 'iab/64-oui', ('iab', 64, (p << 40) | rng.getrandbits(40))))
-        cases.append(Case('eui_iab 64 %d' % ((p << 24) | rng.getrandbits(24)), 'iab/64-low', ('iab', 64, (p << 24) | rng.getrandbits(24))))
-        m48 = (p << 24) | rng.getrandbits(24)
-        e64 = ((m48 >> 24) << 40) | (0xfffe << 24) | (m48 & 0xffffff)
-        cases.append(Case('eui_iab 64 %d' % e64, 'iab/64-oui', ('iab', 64, e64)))
+    # IAB: EUI-64 receivers: IAB base OUI at the EUI-64 OUI position (bits 40..63), at the EUI-48 position
+    # (bits 24..47: not an IAB address for an EUI-64; the pinned code said it was, finding F17), EUI-64 forms
+    # of IAB MACs, neighbours of the base OUIs, random values
+    for _ in range(10 * mult):
+        for p in IABS:
+            for v, tag in (((p << 40) | rng.getrandbits(40), 'iab/64-oui'), ((p << 24) | rng.getrandbits(24), 'iab/64-low'),
+                           ((p << 40) | (p << 16) | rng.getrandbits(16), 'iab/64-both')):
+                cases.append(Case('eui_iab 64 %d' % v, tag, ('iab', 64, v)))
+            m48 = (p << 24) | rng.getrandbits(24)
+            e64 = ((m48 >> 24) << 40) | (0xfffe << 24) | (m48 & 0xffffff)
+            cases.append(Case('eui_iab 64 %d' % e64, 'iab/64-oui', ('iab', 64, e64)))
     for _ in range(20 * mult):
         p = rng.choice((IABS[0] + 1, IABS[1] - 1, IABS[0] ^ 0x800000, rng.getrandbits(24), 0))
         v = rng.choice(((p << 40) | rng.getrandbits(40), (p << 24) | rng.getrandbits(24), rand_value(rng, 64)))
-        if (v >> 24) in IABS or (v >> 40) in IABS:
-            continue
         cases.append(Case('eui_iab 64 %d' % v, 'iab/64', ('iab', 64, v)))
     # format(dialect): own family, other family (wider / narrower), user dialects, None under a random own dialect
     for ver in (48, 64):
